@@ -15,6 +15,19 @@ type PropSpec struct {
 }
 
 var properties = map[string]PropSpec{
+	"C01": {
+		Level: "other",
+		Explanation: "Each mutator is verified, once and for all inputs, against the list operation the property names, by a symbolic sequence algebra over the SSA: the header a mutator leaves behind is evaluated on every path as a concatenation of segments of the header it found (h0) and single values, and compared with the specification by linear entailment (Fourier-Motzkin). Pop: h0 without slot k and the value returned is h0[k], k = 1 under FIFO and len-1 otherwise; untouched header and (nil,false) when empty. Insert: h0 with x inserted exactly once at the clamped position (end when left >= Len, front when left <= 0, slot left+1 otherwise), everything else unchanged and in order, flag false on non-storing paths. Reset: h0[:1]. Replace: one element store of the argument at slot i+1, flag true exactly when stored. Swap: two element stores exchanging the values found at slots i+1 and j+1. Reverse: the loop exchanges mirror slots (a + b == len, by a conserved-sum loop invariant), starting at (1, len-1), one step per iteration, a <= b in the body and a >= b at every exit (no pair skipped, none exchanged twice). Remove: a filter loop over slots 1..len-1 in ascending order keeping every slot except the looked-up position, stored as [configuration] ++ kept, returning the element looked up. Push: both append loops visit x[0], x[1], ... one per iteration and append at the end of the current header (nil values included: no nil test). stack.index: i in [0,Len) addresses slot i+1, -k slot len-k, an oversize index the last slot (options on), and the value returned is the slot at the position returned. The nine exported wrappers hand their arguments to the worker unchanged and return its results. R-SLOT0: no header store or element store can lose, move or overwrite the configuration slot, so Len() == len(header)-1 always (R-CAPEQ Stack.Len). R-ELEMINDEP: Reset does not depend on element values. Since every mutator is a list operation on the header it finds, the content after any sequential history is that of the ordered list, by induction on the history.",
+		NotDecided: "Front/Back (they skip nil slots by a scan) and IsEmpty are covered only through Len/Index; the success flags of Pop/Remove for nil elements (they report false for a nil element although it was removed); capacity interaction (C03), concurrent histories (C10); the argument is an induction over verified single operations, with hand-written recognisers (level other).",
+		Run: func(c *Ctx) {
+			c.ruleInv()
+			c.ruleSlot0()
+			c.ruleSeq()
+			c.ruleResetElemIndependent()
+			c.rep.floor("R-SEQ", 19)
+			c.rep.floor("R-SLOT0", 12)
+		},
+	},
 	"C20": {
 		Level: "other",
 		Explanation: "Structural necessary conditions of C20, decided on the SSA of everything reachable from Stack.Reveal. (W) The transitive write set of Reveal is {element slot, Condition expression, lock bookkeeping}: no slice header is stored, so no stack changes its length (nothing added, dropped or duplicated by shifting), no configuration word (kind, options, parenthetical flag) is written, nothing is appended. (PROV) The only element-slot store in the scope is replace(), called once (revealDescend), at the index the inner stack was found at, and on every path the value stored is the inner stack itself (re-stored in place) or its only child - the latter exactly under kind != NOT, exactly one element, child is a Stack/Condition (Interface) and neither wrapper nor child parenthetical (facts required on each such path); reveal hands revealDescend the element it found at i together with that i; the only expression store is SetExpression in revealSingle, which gives the Condition back its own (converted, revealed-in-place) expression stack. (ALLOC) No Stack, Condition or configuration is constructed in the scope, so nesting depth cannot grow. (LOCK) In every function of the scope, nothing called while a stack's lock is held (region = CFG-reachable from lock() without passing unlock()) locks the same stack again: no self-deadlock with the mutex enabled. (PANIC) The nil/reflect/type-assertion/bounds census restricted to the scope, with preconditions checked at every call site.",
